@@ -13,7 +13,7 @@
 From Coq Require Import List NArith ZArith Arith Bool Lia.
 From GmsmVerif Require Import Gen.DecConsts Lib.Outcome Dec.Access Dec.AccessProofs Dec.DecSpec
   Dec.BerModel Dec.BerProofs Dec.BerDer Dec.BerFuel Dec.BerSize Dec.ByteModels Dec.ByteProofs
-  Dec.Asn1Model Dec.Asn1Proofs Dec.Asn1Inst Dec.Asn1InstProofs Dec.Asn1DerLink.
+  Dec.Asn1Model Dec.Asn1Proofs Dec.Asn1Inst Dec.Asn1InstProofs Dec.Asn1DerLink Gen.Asn1Schemas.
 From GmsmVerif Require SM2.DER.
 Import ListNotations.
 Local Open Scope nat_scope.
@@ -231,20 +231,89 @@ Proof. vm_compute. repeat split; reflexivity. Qed.
 
 (* ================= 5. encoding/asn1: the DER reader every wrapper goes through ================= *)
 (* Dec/Asn1Model.v follows parseTagAndLength / parseBase128Int / parseField / parseBigInt / parseBitString /
-   parseObjectIdentifier of Go 1.23 with checked accesses, for structs of big.Int, []byte, BitString, OID,
-   RawValue with the field parameters optional / explicit / tag:n / set.  For EVERY schema, field parameter
+   parseObjectIdentifier / parseInt64 / parseBool / parseSequenceOf of Go 1.23 with checked accesses, for big.Int,
+   []byte, BitString, OID, RawValue, int, bool, time.Time, the empty interface, slices and structs of these with
+   the field parameters optional / explicit / tag:n / set / default:n.  For EVERY schema, field parameter
    and byte string: a value or an error, never an out-of-range access, never a loop without end; at most
-   2 * (number of schema nodes) tag-and-length reads; the value has the shape of the Go type. *)
+   2 * (number of schema nodes) + (weight of the schema) * (length of the input) tag-and-length reads, where the
+   weight is 0 for a schema without slices; the value has the shape of the Go type. *)
 Theorem C18_asn1_unmarshal_total :
   forall k params b,
     match Unmarshal k params b with
-    | Ok (v, rest, steps) => (steps <= 2 * N.of_nat (ksize k))%N /\ length rest <= length b /\
+    | Ok (v, rest, steps) => (steps <= 2 * N.of_nat (ksize k) + N.of_nat (kweight k) * N.of_nat (length b))%N /\
+                             length rest <= length b /\
                              (match v with VAbsent => p_optional params | _ => conforms k v end) = true
     | Err _ => True
     | Panic | Hang => False
     end.
 Proof. exact Unmarshal_total. Qed.
 Print Assumptions C18_asn1_unmarshal_total.
+
+(* the Go types gmsm hands to encoding/asn1.Unmarshal: certificate, tbsCertificate, certificateRequest,
+   pkix.CertificateList, the PKCS#7 / PKCS#8 / PKCS#12 structures, the extension payloads, the SM2 structures ...
+   Their schemas are read from the struct declarations and asn1 tags in the source by the translator
+   (Gen/Asn1Schemas.v, regenerated on every run; names are <package>.<Go type> in ASCII).  For every one of them and
+   every byte string: a value or an error, with the cost bound; the bound is computed for each schema below. *)
+Theorem C18_gmsm_asn1_decoders_total :
+  forall name s, In (name, s) gen_asn1_schemas ->
+  forall b,
+    match Unmarshal s noParams b with
+    | Ok (v, rest, steps) => (steps <= 2 * N.of_nat (ksize s) + N.of_nat (kweight s) * N.of_nat (length b))%N /\
+                             length rest <= length b /\ conforms s v = true
+    | Err _ => True
+    | Panic | Hang => False
+    end.
+Proof.
+  intros name s _ b. pose proof (Unmarshal_total s noParams b) as U.
+  destruct (Unmarshal s noParams b) as [[[v rest] st]| | |]; auto.
+  destruct U as (U1 & U2 & U3). repeat split; auto. destruct v; try exact U3; discriminate.
+Qed.
+Print Assumptions C18_gmsm_asn1_decoders_total.
+
+(* the sizes behind the bound, evaluated on what the source declares now: the list is not empty, the largest
+   schema has fewer than 400 nodes and a weight below 400, so every one of these decoders makes at most
+   800 + 400 * |b| tag-and-length reads *)
+Theorem C18_gmsm_asn1_cost :
+  gen_asn1_schemas <> [] /\
+  forall name s, In (name, s) gen_asn1_schemas -> forall b v rest steps,
+    Unmarshal s noParams b = Ok (v, rest, steps) -> (steps <= 800 + 400 * N.of_nat (length b))%N.
+Proof.
+  split; [discriminate|].
+  assert (H : forallb (fun ns => Nat.leb (ksize (snd ns)) 400 && Nat.leb (kweight (snd ns)) 400)%bool gen_asn1_schemas = true)
+    by (vm_compute; reflexivity).
+  rewrite forallb_forall in H. intros name s Hin b v rest steps E.
+  specialize (H _ Hin). cbn [snd] in H. apply andb_prop in H. destruct H as [H1 H2].
+  apply Nat.leb_le in H1, H2.
+  pose proof (Unmarshal_total s noParams b) as U. rewrite E in U. destruct U as (U & _).
+  assert (N.of_nat (kweight s) * N.of_nat (length b) <= 400 * N.of_nat (length b))%N by (apply N.mul_le_mono_r; lia).
+  lia.
+Qed.
+Print Assumptions C18_gmsm_asn1_cost.
+
+(* the second part of the reader on hand-written copies of validity, SEQUENCE OF Extension, basicConstraints and
+   RDNSequence (time, bool, int with default, slices, SET OF by type name, ANY) *)
+Example C18_asn1_examples_2 :
+  let validityS := KStruct false [(noParams, KTime); (noParams, KTime)] in
+  let extS := KStruct false [(noParams, KOID); (mkParams true false None false, KBool); (noParams, KOctets)] in
+  let bcS := KStruct false [(mkParams true false None false, KBool); (mkParams true false None false, KInt (Some (-1)%Z))] in
+  let rdnS := KSeqOf false (KSeqOf true (KStruct false [(noParams, KOID); (noParams, KAny)])) in
+  let utc := [50;52;48;49;48;49;49;50;48;48;48;48;90]%N in                (* 240101120000Z *)
+  let gen := [50;48;51;52;48;49;48;49;49;50;48;48;48;48;90]%N in          (* 20340101120000Z *)
+  let feb30 := [50;52;48;50;51;48;49;50;48;48;48;48;90]%N in              (* 240230120000Z *)
+  Unmarshal validityS noParams ([48;32;23;13] ++ utc ++ [24;15] ++ gen)%N = Ok (VStruct [] [VTime false utc; VTime true gen], [], 3%N) /\
+  Unmarshal validityS noParams ([48;30;23;13] ++ utc ++ [23;13] ++ feb30)%N = Err 8 /\
+  Unmarshal (KSeqOf false extS) noParams [48;22; 48;10;6;3;85;29;19;1;1;255;4;0; 48;8;6;3;85;29;15;4;1;7; 5;0]%N
+    = Ok (VSeq [VStruct [] [VOID [2;5;29;19]%N; VBool true; VBytes []]; VStruct [] [VOID [2;5;29;15]%N; VAbsent; VBytes [7%N]]], [5;0]%N, 11%N) /\
+  Unmarshal (KSeqOf false extS) noParams [48;12; 48;10;6;3;85;29;19;1;1;1;4;0]%N = Err 7 /\   (* BOOLEAN 01 *)
+  Unmarshal (KSeqOf false extS) noParams [48;7; 48;2;6;0; 49;1;0]%N = Err 3 /\                (* a SET among the elements *)
+  Unmarshal bcS noParams [48;0]%N = Ok (VStruct [] [VAbsent; VInt (-1)], [], 1%N) /\           (* default:-1 *)
+  Unmarshal bcS noParams [48;6;1;1;255;2;1;3]%N = Ok (VStruct [] [VBool true; VInt 3], [], 3%N) /\
+  Unmarshal bcS noParams [48;11;2;9;0;128;0;0;0;0;0;0;0]%N = Err 3 /\                          (* nine-byte int *)
+  Unmarshal rdnS noParams [48;13;49;11;48;9;6;3;85;4;3;12;2;195;169]%N
+    = Ok (VSeq [VSeq [VStruct [] [VOID [2;5;4;3]%N; VStr 12 [195;169]%N]]], [], 7%N) /\
+  Unmarshal rdnS noParams [48;13;49;11;48;9;6;3;85;4;3;12;2;195;40]%N = Err 9 /\               (* not UTF-8 *)
+  Unmarshal rdnS noParams [48;13;48;11;48;9;6;3;85;4;3;12;2;195;169]%N = Err 3.                (* SEQUENCE where the type name says SET *)
+Proof. vm_compute. repeat split; reflexivity. Qed.
 
 (* end to end: sm2.SignDataToSignDigit = Unmarshal into SEQUENCE { r, s INTEGER } ... *)
 Theorem C18_signDataToSignDigit_total : forall b, no_crash (signDataToSignDigit b).
